@@ -9,6 +9,24 @@
 ARDUINOJSON_BEGIN_PRIVATE_NAMESPACE
 
 inline void doubleToFloat(const uint8_t d[8], uint8_t f[4]) {
+  const uint16_t exponent = uint16_t(((d[0] & 0x7F) << 4) | (d[1] >> 4));
+  if (exponent > 1023 + 127) {  // above the float range, infinity or NaN
+    const bool isNan =
+        exponent == 0x7FF &&
+        ((d[1] & 0x0F) | d[2] | d[3] | d[4] | d[5] | d[6] | d[7]) != 0;
+    f[0] = uint8_t((d[0] & 0x80) | 0x7F);
+    f[1] = isNan ? 0xC0 : 0x80;
+    f[2] = 0;
+    f[3] = 0;
+    return;
+  }
+  if (exponent < 1023 - 126) {  // below the float range: flush to zero
+    f[0] = uint8_t(d[0] & 0x80);
+    f[1] = 0;
+    f[2] = 0;
+    f[3] = 0;
+    return;
+  }
   f[0] = uint8_t((d[0] & 0xC0) | (d[0] << 3 & 0x3f) | (d[1] >> 5));
   f[1] = uint8_t((d[1] << 3) | (d[2] >> 5));
   f[2] = uint8_t((d[2] << 3) | (d[3] >> 5));
